@@ -46,41 +46,66 @@ Proof. intros Ha. destruct a; [congruence|reflexivity]. Qed.
 Lemma starts_with_self_app p r : starts_with (p ++ r) p = true.
 Proof. induction p as [|c p IH]; [reflexivity|]. cbn [app starts_with]. now rewrite N.eqb_refl. Qed.
 
+Lemma rstrip_no_trailing top : ends_with top [c_slash] = false -> rstrip_c c_slash top = top.
+Proof.
+  unfold ends_with, rstrip_c. intros H. destruct (rev top) as [|x l] eqn:E.
+  - cbn. rewrite <- (rev_involutive top), E. reflexivity.
+  - cbn [rev app starts_with] in H. rewrite andb_true_r in H. cbn [lstrip_c]. rewrite H.
+    rewrite <- E. apply rev_involutive.
+Qed.
+
+(* the prefix the code strips: top.rstrip('/') + '/' *)
+Definition top_prefix (top : str) : str := rstrip_c c_slash top ++ [c_slash].
+
+(* a top directory is "/" or a path without trailing slash *)
+Definition top_ok (top : str) : Prop := top = [c_slash] \/ (ends_with top [c_slash] = false /\ top <> []).
+
+Lemma top_prefix_cases top : top_ok top -> (top = [c_slash] /\ top_prefix top = [c_slash])
+                                          \/ (ends_with top [c_slash] = false /\ top <> [] /\ top_prefix top = top ++ [c_slash]).
+Proof.
+  intros [->|[H1 H2]]; [left; split; reflexivity|right]. unfold top_prefix. now rewrite rstrip_no_trailing.
+Qed.
+
 (* Shape of the relative Path for a top-directory trash can.
-   Hypotheses describe os.path.realpath output: the parent lies at or below the top directory `top`,
-   which is not "/" and has no trailing slash; `rest` is the part below. *)
+   Hypotheses describe os.path.realpath output: the parent is the top directory itself or lies below it
+   (parent = top_prefix top ++ rest with rest a non-empty relative path). *)
 Theorem orig_loc_relative_lemma path top rest base :
   basename (normpath path) = base ->
   starts_with base [c_slash] = false ->
-  ends_with top [c_slash] = false ->
-  top <> [] ->
-  (* case parent = top *)
+  top_ok top ->
   (orig_loc_result path top top RelativePaths = base
    /\ join2 top (orig_loc_result path top top RelativePaths) = join2 top base)
   /\
-  (* case parent = top/rest with rest a non-empty relative path *)
   (rest <> [] -> starts_with rest [c_slash] = false ->
-   orig_loc_result path (top ++ [c_slash] ++ rest) top RelativePaths = join2 rest base
+   orig_loc_result path (top_prefix top ++ rest) top RelativePaths = join2 rest base
    /\ isabs (join2 rest base) = false
-   /\ join2 top (join2 rest base) = join2 (top ++ [c_slash] ++ rest) base).
+   /\ join2 top (join2 rest base) = join2 (top_prefix top ++ rest) base).
 Proof.
-  intros Hb Hbs Ht Htn. split.
+  intros Hb Hbs Hok. split.
   - unfold orig_loc_result, calc_parent_path. rewrite Hb, str_eqb_refl. cbn [orb].
-    rewrite app_length. rewrite skipn_all_plus.
+    assert (skipn (length (rstrip_c c_slash top ++ [c_slash])) top = []) as ->.
+    { destruct (top_prefix_cases top Hok) as [[-> _]|[H1 [_ _]]]; [reflexivity|].
+      rewrite rstrip_no_trailing by assumption. rewrite app_length. apply skipn_all_plus. }
     assert (join2 [] base = base) as -> by (unfold join2; now rewrite Hbs). split; reflexivity.
   - intros Hr Hrs. unfold orig_loc_result, calc_parent_path. rewrite Hb.
-    rewrite app_assoc, starts_with_self_app, orb_true_r, skipn_app_len.
+    fold (top_prefix top). rewrite starts_with_self_app, orb_true_r, skipn_app_len.
     split; [reflexivity|].
     rewrite (join2_rel rest base) by assumption.
     assert (Hrb : forall t, starts_with (rest ++ t) [c_slash] = false)
       by (intros t; rewrite starts_with_app_nonempty; assumption).
     split.
     + unfold isabs. destruct (ends_with rest [c_slash]); apply Hrb.
-    + assert (Hne : (top ++ [c_slash]) ++ rest <> []) by (destruct top; [congruence|discriminate]).
-      rewrite (join2_rel ((top ++ [c_slash]) ++ rest) base) by assumption.
-      rewrite ends_with_app_nonempty by assumption.
-      destruct (ends_with rest [c_slash]);
-        (rewrite join2_rel by (first [assumption | apply Hrb]); rewrite Ht; now rewrite <- !app_assoc).
+    + destruct (top_prefix_cases top Hok) as [[-> Hp]|[Ht [Htn Hp]]]; rewrite Hp.
+      * assert (Hne : [c_slash] ++ rest <> []) by discriminate.
+        rewrite (join2_rel ([c_slash] ++ rest) base) by assumption.
+        rewrite ends_with_app_nonempty by assumption.
+        destruct (ends_with rest [c_slash]);
+          (rewrite join2_rel by (first [discriminate | apply Hrb]); cbn; now rewrite <- ?app_assoc).
+      * assert (Hne : (top ++ [c_slash]) ++ rest <> []) by (destruct top; [congruence|discriminate]).
+        rewrite (join2_rel ((top ++ [c_slash]) ++ rest) base) by assumption.
+        rewrite ends_with_app_nonempty by assumption.
+        destruct (ends_with rest [c_slash]);
+          (rewrite join2_rel by (first [assumption | apply Hrb]); rewrite Ht; now rewrite <- !app_assoc).
 Qed.
 
 Theorem orig_loc_absolute_lemma path parent top :
